@@ -777,6 +777,10 @@ class Job:
                         # directory behind.
                         raise
 
+                    # An invalid state point (e.g., a key that contains a dot) is
+                    # rejected here, before anything is created on disk.
+                    statepoint_file = self.statepoint
+
                     # Create the workspace directory if it does not exist.
                     try:
                         _mkdir_p(self.path)
@@ -792,8 +796,8 @@ class Job:
                     # The state point save will not overwrite an existing file on
                     # disk unless force is True, so the subsequent load will catch
                     # when a preexisting invalid file was present.
-                    self.statepoint.save(force=force)
-                    statepoint = self.statepoint.load(self.id)
+                    statepoint_file.save(force=force)
+                    statepoint = statepoint_file.load(self.id)
 
                     # Update the project's state point cache if the saved file is valid.
                     self._project._register(self.id, statepoint)
